@@ -77,6 +77,16 @@ CHECKS = {
          "transcript_model_reads.tsv for every strategy pair.",
          "Trusted: the weight function transcribed from the documentation; TSV/BED parsers. Multi-locus ties are C08's subject.",
          "DESIGN.md §3 C02"),
+ "C20": ("model_checking",
+         "stateless exploration of all interleavings (iterative preemption bounding + state deduplication) of 2-3 simulated processes executing the real cache functions under a cooperative scheduler over a virtual file system",
+         "The real set_configs_directory, convert_db/find_converted_db and store_*/find_stored_* functions run as threads that can be "
+         "descheduled only inside intercepted file-system calls on the shared cache; every interleaving up to the preemption bound (quick 3; "
+         "thorough unbounded for 2 processes, 2 for 3 processes) is executed, deduplicated on (virtual FS content, per-process observed "
+         "history). Oracle on every complete schedule: no process fails, no read observes a file another process has open for writing, the "
+         "database a process ends up with was converted from its own GTF, the final cache files are valid JSON.",
+         "Trusted: the visibility model of the virtual FS (truncate-at-open, publish-at-close, atomic replace) and the two-step stub of "
+         "gffutils.create_db. Index/BED/alignment caches are only reachable at function level (no minimap2).",
+         "DESIGN.md §3 C20"),
 }
 
 NOT_YET = {}
